@@ -218,6 +218,7 @@ func init() {
 			}
 			o.emit("reg"+regTokens(ops), "ok |"+regOutTokens(ops, outs), fmt.Sprintf("reg:%d:%s", n, regOutTokens(ops, outs)), n > 1)
 		}
+		beginPhase("concurrent registry calls (a hang here means a call never returned: deadlock)")
 		// (b) concurrent histories checked for linearizability against the same specification
 		runs, workers, perWorker := 300, 4, 6
 		if thorough {
@@ -255,9 +256,7 @@ func init() {
 			for _, h := range hist {
 				all = append(all, h...)
 			}
-			begin("porcupine")
 			res := porcupine.CheckOperationsTimeout(regModel, all, 5*time.Second)
-			begin("")
 			linChecked++
 			if res == porcupine.Illegal {
 				o.violate(Violation{Property: "C19", Kind: "direct", What: "a concurrent history of registry calls is not linearizable",
@@ -408,7 +407,7 @@ func init() {
 				}
 			}
 		}
-		begin("")
+		beginPhase("16 goroutines encoding and decoding their own messages")
 		workers := 16
 		loops := 3
 		if thorough {
